@@ -128,6 +128,12 @@ def compare_traces(ra, rb, props, oracle, world_a, client=None, compare_draws=Tr
             ws = [rr_["ch"].get("p")] + [q.get("p") for q in rr_["ch"].get("parts", [])]
             if any(w is not None and w < 1e-5 for w in ws):
                 tol = tol + 2e-6
+        if rr_ is not None and rr_["do"] == "op":
+            # weak couplings leave amplitudes below the library's label / purity tolerances, which one
+            # twin may round away
+            sp = (ra.world.op_specs or {}).get(rr_.get("op"), {})
+            if any(isinstance(v, float) and 0 < abs(v) < 3e-5 for v in sp.values()):
+                tol = tol + 2e-6
         if sid not in ia or sid not in ib:
             continue
         ka, kb = ia[sid], ib[sid]
